@@ -1,5 +1,6 @@
 import GscribModel.Drv.Socket
 import GscribModel.Drv.Builder
+import GscribModel.Drv.Heightmap
 /-! Line-protocol driver: `driver <mode>` (or `lake env lean --run Driver.lean <mode>`) reads one
     case/operation per line on stdin and prints exactly one record per line (`bad-op …` for an
     unparsable line).  Each mode lives in `GscribModel/Drv/<Mode>.lean`. -/
@@ -9,4 +10,5 @@ def main (args : List String) : IO UInt32 := do
   match args with
   | ["socket"] => SocketDrv.main; return 0
   | ["builder"] => BuilderDrv.main; return 0
+  | ["heightmap"] => HeightmapDrv.main; return 0
   | _ => IO.eprintln s!"unknown mode {args}"; return 2
